@@ -129,6 +129,12 @@ def mutations(rng, thorough):
     for f in (b"wit/#/x", b"wit/r+", b"#/#", b"wit/+/#/+", b"+wit", b"#"):
         out.append(("subscribe-filter-%s" % f.decode(), frame(0x82, bytes([0, 9]) + lp(f) + bytes([1])), False))
         out.append(("unsubscribe-filter-%s" % f.decode(), frame(0xa2, bytes([0, 9]) + lp(f)), False))
+    # reserved requested-QoS values on filters that match what other clients publish: the subscription is stored as sent and
+    # the value meets the delivery path later, on somebody else's publish
+    for f in (b"#", b"wit", b"wit/#", b"+"):
+        for rq in (3, 4, 127, 128, 255):
+            out.append(("subscribe-filter-%s-reserved-qos-%d" % (f.decode(), rq), frame(0x82, bytes([0, 9]) + lp(f) + bytes([rq])), False))
+    out.append(("subscribe-filter-two-one-reserved-qos", frame(0x82, bytes([0, 9]) + lp(b"wit") + bytes([1]) + lp(b"#") + bytes([3])), False))
     for q in (0, 1):
         flags = 0x02 | 0x04 | (q << 3) | 0x20
         out.append(("connect-retained-will-on-wildcard-topic-q%d" % q,
